@@ -102,7 +102,7 @@ func goSemCases(cx *ctx) {
 				}
 				return "0"
 			}
-			switch rr2.Intn(21) {
+			switch rr2.Intn(22) {
 			case 12:
 				var xs, hs []string
 				for i := rr2.Intn(6); i > 0; i-- {
@@ -191,6 +191,14 @@ func goSemCases(cx *ctx) {
 					cls = "err"
 				}
 				return &h.Case{Kind: "gosem-readalllimit", Line: fmt.Sprintf("goreadalllimit %s %d", h.Hex(data), n), Impl: fmt.Sprintf("%s %s rest=%d", h.Hex(got), cls, len(rest)), NonTrivial: true}
+			case 21:
+				seps := []string{"1", "a", "ab", "aa", "", "\n"}
+				sep := seps[rr2.Intn(len(seps))]
+				w := s
+				if rr2.Bool() {
+					w = strings.Repeat("a", rr2.Intn(5)) + "1b1" + strings.Repeat("ab", rr2.Intn(3)) + s
+				}
+				return &h.Case{Kind: "gosem-count", Line: "gocount " + hx(w) + " " + hx(sep), Impl: fmt.Sprint(strings.Count(w, sep)), NonTrivial: true}
 			case 20: // (*bytes.Buffer).WriteTo on writers that take everything, fail after k bytes, or take k bytes silently
 				data := []byte(s)
 				mode := []string{"ok", "err", "short"}[rr2.Intn(3)]
